@@ -67,6 +67,8 @@ class NPProxy:
         return _np.array(a, dtype=dtype, **k)
 
     def asarray(self, a, dtype=None, **k):
+        if isinstance(a, _np.ndarray) and (dtype is None or a.dtype == dtype):
+            return a          # numpy's asarray does not copy an ndarray: aliasing is part of the semantics
         return self.array(a, dtype=dtype)
 
     def where(self, c, *ab):
@@ -74,6 +76,16 @@ class NPProxy:
         if isinstance(c, (SB, SR)) or any(isinstance(x, (SR, SB)) for x in ab):
             return HANDLED[_np.where](c, *ab)
         return _np.where(c, *ab)
+
+    def isclose(self, a, b, rtol=1e-05, atol=1e-08, equal_nan=False):
+        if isinstance(a, (SR, SB)) or isinstance(b, (SR, SB)):
+            return abs(a - b) <= atol + rtol * abs(b)
+        return _np.isclose(a, b, rtol=rtol, atol=atol, equal_nan=equal_nan)
+
+    def allclose(self, a, b, rtol=1e-05, atol=1e-08, equal_nan=False):
+        if isinstance(a, (SR, SB)) or isinstance(b, (SR, SB)):
+            return abs(a - b) <= atol + rtol * abs(b)
+        return _np.allclose(a, b, rtol=rtol, atol=atol, equal_nan=equal_nan)
 
     def clip(self, a, a_min=None, a_max=None, **k):
         if isinstance(a, SR):
